@@ -79,6 +79,8 @@ GCore ==
   \/ AdoptStep /\ L("adoptstep", 0, 0)
   \/ OpenLoad /\ L("openload", 0, 0)
   \/ Retry /\ L("retry", 0, 0)
+  \* (a new backup only once the directory has changed since the last one)
+  \/ Warm /\ (IF bk.has THEN bk.dir # dir ELSE TRUE) /\ Backup /\ L("backup", 0, 0)
 
 GNext == (GCore /\ UNCHANGED cfg) \/ \E nl \in Limits : OpenLock(nl) /\ L("openlock", nl, 0)
 
